@@ -26,7 +26,7 @@ class Prop:
     shard = 8
     rule = ("(a) corpus: witnesses of D06 D20 D21 D22 D23 D70 (each fails on the unchanged code); (b) exhaustive groups: source tree = every "
             "ordered forest with 1..N nodes (N=3 quick, 4 thorough; thorough adds 5 deeper shapes of 4-5 nodes) x 2 labelings (clones in "
-            "different parents + explicit str/int data_ids on equal-comparing distinct objects + an identity-hashed object | all nodes "
+            "different parents + explicit str/int data_ids on equal-comparing distinct objects + a frozen dataclass | all nodes "
             "equal-comparing distinct objects under explicit ids) x plain/typed (kinds k1/k2 alternating), metadata on two source nodes, "
             "a second tree x[z],y as target; on it EVERY copy operation with EVERY argument: add(node) of every source node x deep "
             "None/True/False x below the target root with before in {None,True,False,0,1,-1,5,-5,each child} / below x / below z, kind=, data_id= "
@@ -68,16 +68,22 @@ class Prop:
             yield dict(kind="hist", univ=c["univ"], ops=c["ops"], corpus=c["id"])
         quick = tier == "quick"
         groups = list(M.gen_groups(3 if quick else 4, full=not quick))
-        if not quick:
-            groups += list(M.gen_groups(0, shapes=M.EXTRA_SHAPES))
-        for g in groups:
+        # deeper shapes (depth 3, two grandchildren; a chain of 4): thorough = all five x everything,
+        # quick = two of them, 'mixed' labeling, every 4th alternative
+        groups += list(M.gen_groups(0, shapes=M.EXTRA_SHAPES[:2] if quick else M.EXTRA_SHAPES,
+                                    labelings=("mixed",) if quick else ("mixed", "equal"), full=not quick))
+        for gi, g in enumerate(groups):
             alts = g["alts"]
-            if quick and g["n"] == 3:
-                alts = [a for i, a in enumerate(alts) if i % 2 == (len(g["setup"]) % 2)]
+            if quick and g["n"] > 3:
+                alts = [a for i, a in enumerate(alts) if i % 4 == gi % 4]
+            elif quick and g["n"] == 3:
+                # quick tier: every 5th alternative per group, the offset moves with the group (the union over the
+                # 20 groups of 3-node sources still covers every alternative; the thorough tier runs all of them)
+                alts = [a for i, a in enumerate(alts) if i % 5 == gi % 5]
             for i in range(0, len(alts), CHUNK):
                 yield dict(kind="alts", univ=g["univ"], setup=g["setup"], alts=alts[i:i + CHUNK], label=g["label"])
         # histories on small sources: every k-th copy alternative followed by a mutation tail
-        stride = 23 if quick else 5
+        stride = 41 if quick else 5
         j = 0
         for g in groups:
             if g["n"] < 2:
